@@ -22,6 +22,7 @@ extern uint32_t tramp_cap_mxcsr; extern uint16_t tramp_cap_fcw;
 extern uint8_t tramp_cap_zmm[32][64];
 
 void tramp_init(void);
+extern unsigned tramp_stack_shift;      /* 0..7: lowers the callee's entry rsp by 16-byte steps */
 /* args[0..nargs): integer/pointer arguments (first six in registers, rest on the stack).
  * is32 bit i set: argument i is a 32-bit quantity (int/uint32_t) whose upper half is unspecified by the ABI. */
 uint64_t tramp_invoke(void *fn, int nargs, const uint64_t *args, unsigned is32, const tramp_hidden_t *h);
